@@ -236,7 +236,9 @@ pub(crate) fn run(seed: u64, n: u64, out: &mut Out) {
                     let mut what: &'static str = if pending_b.is_empty() { "blocks-proof-unsolicited" } else { "blocks-proof-honest" };
                     if !in_closing && !pending_b.is_empty() && rng.chance(2, 3) {
                         // (the forged header at the last number can only be tried when the user's request for it is under way: take the chance)
-                        let pick = if missing.contains(&forged_header.calc_header_hash()) && rng.chance(1, 2) { 8 } else { rng.below(10) };
+                        let other_tip_hash = other.chain.headers[other.tip() as usize].hash();
+                        let pick = if missing.contains(&forged_header.calc_header_hash()) && rng.chance(1, 2) { 8 }
+                                   else if missing.contains(&other_tip_hash) && rng.chance(1, 2) { 9 } else { rng.below(10) };
                         match pick {
                             0 if !hs.is_empty() => { what = "blocks-proof-foreign-header"; let j = rng.below(hs.len() as u64) as usize; let n = rng.range(1, tip - 1); hs[j] = other.chain.headers[(n.min(other.tip())) as usize].data(); }
                             1 if !hs.is_empty() => { what = "blocks-proof-dropped-header"; let j = rng.below(hs.len() as u64) as usize; hs.remove(j); if v1 && j < uncles.len() { uncles.remove(j); exts.remove(j); } }
@@ -255,6 +257,19 @@ pub(crate) fn run(seed: u64, n: u64, out: &mut Out) {
                                 let fh = forged_header.calc_header_hash();
                                 missing.retain(|m| m != &fh);
                                 hs.push(forged_header.clone()); uncles.push(packed::Byte32::zero()); exts.push(Pack::pack(&bc.chain.extension(3)));
+                            }
+                            9 if missing.contains(&other_tip_hash) && !hs.iter().any(|h| bc.chain.number_of(&h.calc_header_hash()) == Some(other.tip())) => {
+                                // the RIGHT last header (same hash as requested) carrying the root of an MMR the peer built itself, in which
+                                // the leaf at the other branch's tip number is the other branch's header; proof items from that private MMR
+                                what = "blocks-proof-forged-chain-root";
+                                let on = other.tip();
+                                missing.retain(|m| m != &other_tip_hash);
+                                let mut nums: Vec<u64> = hs.iter().filter_map(|h| bc.chain.number_of(&h.calc_header_hash())).collect();
+                                nums.push(on);
+                                hs.push(other.chain.headers[on as usize].data()); uncles.push(packed::Byte32::zero()); exts.push(Pack::pack(&other.chain.extension(on)));
+                                let (root, items) = bc.chain.hybrid_root_and_proof(&other.chain, tip, &|i| i == on, &nums);
+                                last = last.as_builder().parent_chain_root(root).build();
+                                proof = items.pack();
                             }
                             7 if v1 && !exts.is_empty() => { what = "blocks-proof-bad-extension"; exts[0] = Pack::pack(&Some(ckb_types::bytes::Bytes::from(vec![1u8; 32]).pack())); }
                             _ if !missing.is_empty() => { what = "blocks-proof-missing-as-found"; let m = missing.remove(0); let _ = m; let n = rng.range(1, tip - 1); hs.push(other.chain.headers[n.min(other.tip()) as usize].data()); uncles.push(packed::Byte32::zero()); exts.push(Pack::pack(&None::<packed::Bytes>)); }
